@@ -9,7 +9,9 @@
 //!
 //! Events: T (timer fires; virtual time is advanced by the previously requested timer),
 //! valid answers to the pending request N (normal), NU (normal + NTPv5 upgrade marker,
-//! upgrading sources only), RATE, DENY, RSTR, NTSN, NAKD / NAKR (NTPv5 authnak flag combined
+//! upgrading sources only), QP / QM / QX / QL (NTPv5 normal answers whose poll field requests
+//! own+1 / max / max+2 / min-1; the request above max is adopted unclamped, so RATE is also
+//! explored from states with remote_min > configured max), RATE, DENY, RSTR, NTSN, NAKD / NAKR (NTPv5 authnak flag combined
 //! with poll 127 / own+1), UNK (unknown kiss code), and DL / DH
 //! (the source's own clock filter, a stub controller, now desires the low / high interval).
 //! All answers are assembled at byte level from the request the source emitted (origin /
@@ -763,13 +765,22 @@ enum Ev {
     /// plain-and-NTS, KISS-statement side of D1; the authentication side is C07's).
     NakD,
     NakR,
+    /// NTPv5 only: normal, accepted answers whose poll field asks for own+1 (QP, only while
+    /// own < max+2 so the ladder is finite), the configured max (QM), max+2 (QX, above the
+    /// configured maximum: the source adopts it unclamped) and min-1 (QL)
+    QP,
+    QM,
+    QX,
+    QL,
     /// answers produced by a real `Server` (part G): normal, DENY, NTS-NAK
     GN,
     GD,
     GK,
 }
 
-const ALL_EV: [Ev; 12] = [Ev::T, Ev::N, Ev::NU, Ev::Rate, Ev::Deny, Ev::Rstr, Ev::Ntsn, Ev::NakD, Ev::NakR, Ev::Unk, Ev::DL, Ev::DH];
+const ALL_EV: [Ev; 16] = [
+    Ev::T, Ev::N, Ev::NU, Ev::QP, Ev::QM, Ev::QX, Ev::QL, Ev::Rate, Ev::Deny, Ev::Rstr, Ev::Ntsn, Ev::NakD, Ev::NakR, Ev::Unk, Ev::DL, Ev::DH,
+];
 const GENUINE_EV: [Ev; 4] = [Ev::T, Ev::GN, Ev::GD, Ev::GK];
 
 impl Ev {
@@ -785,6 +796,10 @@ impl Ev {
             Ev::Unk => "UNK",
             Ev::DL => "DL",
             Ev::DH => "DH",
+            Ev::QP => "QP",
+            Ev::QM => "QM",
+            Ev::QX => "QX",
+            Ev::QL => "QL",
             Ev::NakD => "NAKD",
             Ev::NakR => "NAKR",
             Ev::GN => "GN",
@@ -928,12 +943,30 @@ async fn replay_hist(cfg: &Cfg, hist: &[Ev], ctx: Option<&Ctx>, classes: Option<
                     };
                 }
                 match out {
-                    TimerOut::Sent { poll, .. } => {
+                    TimerOut::Sent { poll, timer, .. } => {
                         bump("poll-sent");
+                        if poll > cfg.max {
+                            bump("poll-sent-above-configured-max");
+                        }
                         if let Some(f) = model.floor {
                             bump("poll-sent-after-rate");
+                            if f > cfg.max {
+                                bump("poll-sent-with-floor-above-max");
+                            }
                             if poll > model.last_poll {
                                 bump("poll-lengthened");
+                            }
+                            // the same bound in time: the next poll is scheduled no sooner than the
+                            // floor interval (jitter only ever lengthens, factor >= 1.01)
+                            let floor_ns: u128 = (1u128 << (f.clamp(0, 31) as u32)) * 1_010_000_000;
+                            if timer.as_nanos() < floor_ns {
+                                if let Some(c) = check {
+                                    c.violation(
+                                        "C09:timer-faster-after-rate",
+                                        format!("next poll scheduled sooner than 1.01 x 2^{f} s although the RATE answers so far require an interval >= 2^{f} s (poll byte sent: {poll})"),
+                                        trace(),
+                                    );
+                                }
                             }
                             if poll < f {
                                 if let Some(c) = check {
@@ -1051,6 +1084,19 @@ async fn replay_hist(cfg: &Cfg, hist: &[Ev], ctx: Option<&Ctx>, classes: Option<
                             None
                         }
                     }
+                    Ev::QP | Ev::QM | Ev::QX | Ev::QL => {
+                        let q = match a {
+                            Ev::QP => req.poll.saturating_add(1),
+                            Ev::QM => cfg.max,
+                            Ev::QX => cfg.max + 2,
+                            _ => cfg.min - 1,
+                        };
+                        if req.ver == 5 && (a != Ev::QP || req.poll < cfg.max + 2) {
+                            Some(rig::normal(&req, q as u8, false))
+                        } else {
+                            None
+                        }
+                    }
                     Ev::Rate => rig::kiss(&req, Kiss::Rate),
                     Ev::Deny => rig::kiss(&req, Kiss::Deny),
                     Ev::Rstr => rig::kiss(&req, Kiss::Rstr),
@@ -1087,9 +1133,14 @@ async fn replay_hist(cfg: &Cfg, hist: &[Ev], ctx: Option<&Ctx>, classes: Option<
                     obs = format!("{acts:?} {v1:?} meas+{}", m1 - m0);
                 }
                 match a {
-                    Ev::N | Ev::NU => {
+                    Ev::N | Ev::NU | Ev::QP | Ev::QM | Ev::QX | Ev::QL => {
                         if m1 > m0 {
                             bump("normal-usable");
+                            match a {
+                                Ev::QX => bump("v5-request-above-max"),
+                                Ev::QP | Ev::QM | Ev::QL => bump("v5-request-other"),
+                                _ => {}
+                            }
                             model.marked = false;
                             model.ever_usable = true;
                             model.since_usable = 0;
@@ -1389,7 +1440,7 @@ fn check() {
         return;
     }
     ctx.rule(
-        "breadth-first search to fixpoint over histories of {T, N, NU, RATE, DENY, RSTR, NTSN, NAKD, NAKR (v5 authnak with poll 127 / own+1), UNK, DL, DH} on the real NtpSource \
+        "breadth-first search to fixpoint over histories of {T, N, NU, QP/QM/QX/QL (v5 normal answers requesting poll own+1 / max / max+2 / min-1), RATE, DENY, RSTR, NTSN, NAKD, NAKR (v5 authnak with poll 127 / own+1), UNK, DL, DH} on the real NtpSource \
          (plain / NTS x NTPv4 / NTPv5 / v4-upgrading, poll limits per config), answers byte-assembled for the pending request \
          (NTS: authenticated with the s2c key; NTS-NAK in the clear); answer events are enabled while a request is outstanding, \
          so several answers per poll and every interleaving with unanswered polls is covered. Part G: every word of length <= 6 (thorough 8) \
@@ -1409,7 +1460,7 @@ fn check() {
                 .copied()
                 .filter(|e| match e {
                     Ev::NU => cfg.ver == Ver::Auto,
-                    Ev::NakD | Ev::NakR => cfg.ver != Ver::V4,
+                    Ev::NakD | Ev::NakR | Ev::QP | Ev::QM | Ev::QX | Ev::QL => cfg.ver != Ver::V4,
                     Ev::DH | Ev::DL => desire_values(&cfg).0 != desire_values(&cfg).1,
                     _ => true,
                 })
